@@ -266,8 +266,11 @@ class FileRoundTrip(Relation):
                 text = Generator_ha_sm_hr().create_instance(n, n, first, first_t, second, second_t,
                                                             [0] * n, [1] * n, 'info\n')
             else:
-                text = Generator_spa().create_instance(n, n, n, first, first_t, ident, [0] * n, [1] * n,
-                                                       second, second_t, [0] * n, [1] * n, [1] * n, 'info\n')
+                extra = 1 if (sum(l) + len(ties)) % 2 == 0 else 0     # half of the files: one more lecturer, who offers
+                n3 = n + extra                                         # no project and therefore has an empty list, LAST
+                text = Generator_spa().create_instance(n, n, n3, first, first_t, ident, [0] * n, [1] * n,
+                                                       second + [[]] * extra, second_t + [[]] * extra,
+                                                       [0] * n3, [1] * n3, [1] * n3, 'info\n')
             # one scratch path per process, regenerated in place for every case (as a generate-and-solve loop does)
             from matchingproblems.solver.solver import Solver
             with impl.tmpfile(text) as path:
